@@ -269,6 +269,7 @@ func resetCaches() {
 	helperMemo = map[string]*helperSummary{}
 	accessCache = nil
 	synthFields = map[*ast.SelectorExpr]*types.Var{}
+	closeDelegateMemo = map[*FuncInfo]*FuncInfo{}
 }
 
 // buildConfigs are the build configurations that could change the set of files
